@@ -233,6 +233,10 @@ func BindSignature(sig, key, payload interface{}) {}
 // NewSignature (symbolic runs only) yields a *dsig.Signature carrying a JWS and bound to (key, payload).
 func NewSignature(key, payload interface{}) interface{} { return nil }
 func BindParsed(v interface{})                    {}
+
+// BindKeyPair (symbolic runs): pub is the public half of the private key object priv; Sign / Public on priv are
+// then contract stubs (Sign yields a signature bound to pub and to a deep copy of the payload).
+func BindKeyPair(priv, pub interface{}) {}
 func SetStub(name string, v interface{})          {}
 
 // BindContent ties a document object to an abstract content token (symbolic runs); DigestOf is the digest such
